@@ -5,7 +5,7 @@
    position it reaches is a table slot, whose pointer the invariant resolves; the regions it
    collects are table regions, pairwise equal or disjoint. *)
 From CV Require Import Core.Builder Core.ReaderFacts Core.BuilderFacts Core.AllocProofs
-  Core.WritePtrProofs Core.HeapProofs Core.BuildOps Core.BuildValid Core.BuildInv Core.HeapInv Core.HeapOps.
+  Core.WritePtrProofs Core.HeapProofs Core.BuildOps Core.BuildValid Core.BuildInv Core.HeapInv Core.HeapOps Core.HeapCopy Core.HeapSteps.
 From Coq Require Import ZifyBool ZifyNat FinFun.
 Open Scope Z_scope.
 
@@ -337,12 +337,11 @@ Qed.
 Theorem heap_inv_sublang_valid a cfgd cfgs ncaps fuel src ops m :
   arena_spec_wf a -> root_cap_ok a -> create a (init_rlimit cfgd) = Ok m -> sub_prog ops = true ->
   let st0 := mkBSt (mkW m src (init_rlimit cfgs)) [] in
-  plain_run (mkEnv cfgd cfgs ncaps fuel) st0 ops ->
   Forall seg_bound (bstates (mkEnv cfgd cfgs ncaps fuel) st0 ops) ->
   Forall (fun st => valid_message (bm_data (w_dst (st_w st))) = VOk) (bstates (mkEnv cfgd cfgs ncaps fuel) st0 ops).
 Proof.
-  intros Ha Hr Hc Hp st0 Hpl Hb.
-  pose proof (heap_inv_sublang a cfgd cfgs ncaps fuel src ops m Ha Hr Hc Hp Hpl Hb) as H.
+  intros Ha Hr Hc Hp st0 Hb.
+  pose proof (heap_inv_sublang a cfgd cfgs ncaps fuel src ops m Ha Hr Hc Hp Hb) as H.
   eapply Forall_impl; [|exact H]. intros st (objs & pads & Hs & _). eapply hinv_valid; eauto.
 Qed.
 
@@ -357,24 +356,26 @@ Definition ex2_ops : list bop :=
    BNewStruct 0 8 0; BSetPtr 2 0 3; BNewPList 0 1; BPLSet 4 0 3; BListSetUint 1 0 8 9; BSetRoot 0;
    BRead InDst ORoot; BRead InDst (OSPtr 5 0); BRead InDst (OPLAt 4 0); BNewCap 0 3; BAddCap 7;
    BSetPtr 0 0 8; BReopen; BRead InDst ORoot;
-   BNewPrim 0 2 3; BListSetUint 10 1 2 513; BRead InDst (OLStruct 10 1); BSetPtr 9 0 11].
+   BNewPrim 0 2 3; BListSetUint 10 1 2 513; BRead InDst (OLStruct 10 1); BSetPtr 9 0 11;
+   BNewStruct 0 8 2; BSetPtr 12 0 10; BNewComp 0 8 1 2; BSetStruct 13 1 12; BRead InDst (OLStruct 13 1); BSetPtr 12 1 14;
+   BNewStruct 0 8 2; BCopyFrom 15 12; BSetRoot 15].
 Definition ex2_env := mkEnv (mkCfg 0 0 true true) (mkCfg 0 0 true true) 0 64%nat.
 Definition ex2_m : bmsg := mkBM AMulti [mkBS [0; 0; 0; 0; 0; 0; 0; 0] 1024] [] 67108864.
 Definition ex2_st0 := mkBSt (mkW ex2_m [] 100) [].
 Lemma seg_bound_b l : forallb (fun st => nsegs (w_dst (st_w st)) <? 4294967296) l = true -> Forall seg_bound l.
 Proof. intros H. apply Forall_forall. intros st Hst. rewrite forallb_forall in H. specialize (H st Hst). unfold seg_bound. lia. Qed.
 
-(* non-vacuity of the extended sub-language: a composite list, a member handle used as data and
-   pointer container, PointerList.Set, a typed setter on the composite list; the premises of
-   [heap_inv_sublang_valid] hold and its conclusion agrees with the computed verdicts *)
+(* non-vacuity: a program using every kind of op of the builder inside one message (composite
+   list, member handles as containers and as sources, PointerList.Set, read handles, a
+   capability, reopen, deep copies through SetPtr of a member with pointers, List.SetStruct and
+   Struct.CopyFrom); the premises of [heap_inv_sublang_valid] hold and its conclusion agrees with
+   the computed verdicts *)
 Example sublang_example2 :
   create (ArMulti None) (init_rlimit (mkCfg 0 0 true true)) = Ok ex2_m /\
   sub_prog ex2_ops = true /\
-  plain_run ex2_env ex2_st0 ex2_ops /\
   Forall seg_bound (bstates ex2_env ex2_st0 ex2_ops) /\
-  map (fun st => valid_message (bm_data (w_dst (st_w st)))) (bstates ex2_env ex2_st0 ex2_ops) = repeat VOk 24.
+  map (fun st => valid_message (bm_data (w_dst (st_w st)))) (bstates ex2_env ex2_st0 ex2_ops) = repeat VOk 33.
 Proof.
-  split; [vm_compute; reflexivity|]. split; [reflexivity|]. split.
-  - vm_compute. repeat split; intros; try reflexivity; discriminate.
-  - split; [apply seg_bound_b; vm_compute; reflexivity|vm_compute; reflexivity].
+  split; [vm_compute; reflexivity|]. split; [reflexivity|].
+  split; [apply seg_bound_b; vm_compute; reflexivity|vm_compute; reflexivity].
 Qed.
